@@ -205,6 +205,12 @@ def nontrivial(sc, ctx) -> bool:
     return ctx.probes.get("nontrivial", 0) > 0
 
 
+def deterministic(sc) -> bool:
+    """mode=compiled runs on numba's real scheduler: its outcome on a racy kernel is not a function
+    of the scenario, so it is excluded from the digest-equality self-check (mode=sim is included)."""
+    return sc.get("mode") == "sim"
+
+
 # ------------------------------------------------------------------ comparison
 def outputs(args, outs, ret):
     return [ret if o == "ret" else args[o] for o in outs]
